@@ -860,7 +860,15 @@ func (h *packetHandlerMap) ReplaceWithClosed(ids []protocol.ConnectionID, connCl
 	time.AfterFunc(expiry, func() {
 		h.mutex.Lock()
 		for _, id := range ids {
-			delete(h.handlers, id)
+			// [UQUIC] Only retire the entry this call installed. With zero-length source
+			// connection IDs (InitialPacketSpec.SrcConnIDLength 0, as in every Chrome
+			// parrot) all connections dialed from one Transport are keyed by the same
+			// empty ID: a connection dialed after this one was closed has taken the
+			// entry over, and deleting it by ID would cut that live connection off from
+			// its packets (it then dies of "no recent network activity").
+			if h.handlers[id] == handler {
+				delete(h.handlers, id)
+			}
 		}
 		if len(h.handlers) == 0 {
 			t := (*Transport)(h)
